@@ -5,6 +5,7 @@ import re
 from sa.model import walk_function, AnalysisError
 from sa.norm import u, atoms, guard_atoms, linear, SetExpr
 from sa import util, clangq
+from rules import common
 
 PROPERTY = "C05"
 NEEDS_PYX = True
@@ -34,7 +35,7 @@ def r1(ctx):
     hops = []
 
     def hop(name, ok, loc, good, bad):
-        ctx.ob("role-flow", "hop:%s" % name, ok, loc, good if ok else bad)
+        ctx.ob("role-flow", "hop:%s" % name, ok, loc, good if ok else bad)  # ok=None: undecided
 
     # H1 PED columns
     pr = ctx.func("whatshap.pedigree.PedReader._parse_record")
@@ -90,12 +91,49 @@ def r1(ctx):
     hop("5 child is triple slot 2", ok, "src/pedigreepartitions.cpp:%s" % clangq.line_of(ctor[0]), "triple_indices[triples[i][2]] = i: slot 2 is the child", "the constructor does not index the child by triple slot 2")
     rec = _one(objs, "CXXMethodDecl", "compute_haplotype_to_partition_rec")
     ctx.require(rec, "compute_haplotype_to_partition_rec not found")
-    vds = {v.get("name"): clangq.expr_text(v["inner"][-1]) for v in clangq.find(rec[0], "VarDecl") if v.get("inner")}
-    ok = vds.get("parent0", "").endswith("get_triples()[triple_index][0]") and vds.get("parent1", "").endswith("get_triples()[triple_index][1]")
-    asg = [clangq.expr_text(n) for n in clangq.find(rec[0], "CXXOperatorCallExpr") if clangq.expr_text(n).startswith("operator=(this->haplotype_to_partition_map[i]")]
-    m = re.search(r"\{\{?this->haplotype_to_partition_map\[(\w+)\]\[!\(\(this->transmission_vector >> (.+?)\) & 1\)\], this->haplotype_to_partition_map\[(\w+)\]\[!\(\(this->transmission_vector >> (.+?)\) & 1\)\]\}", asg[0]) if asg else None
-    ok2 = bool(m) and m.group(1) == "parent0" and m.group(3) == "parent1" and m.group(2).replace(" ", "") == "(2*triple_index)" and m.group(4).replace(" ", "") == "((2*triple_index)+1)"
-    hop("6 child hap 0 <- father (bit 2t), hap 1 <- mother (bit 2t+1)", ok and ok2, "src/pedigreepartitions.cpp:%s" % clangq.line_of(rec[0]), "haplotype_to_partition[child] = {father's partition chosen by bit 2t, mother's partition chosen by bit 2t+1}", "child partitions are %s (parent0=%s parent1=%s)" % (asg[0][:160] if asg else "?", vds.get("parent0"), vds.get("parent1")))
+    # single-assignment locals are expanded to their initialisers, parentheses and blanks dropped: the hop is judged on
+    # the fully expanded assignment  map[i] = { map[triples[ti][0]][NOT bit(2*ti)], map[triples[ti][1]][NOT bit(2*ti+1)] }
+    env6 = clangq.local_inits(rec[0])
+    flat = lambda t: t.replace("(", "").replace(")", "").replace(" ", "")
+    asg_nodes = [n for n in clangq.find(rec[0], "CXXOperatorCallExpr") if clangq.expr_text(n).startswith("operator=(this->haplotype_to_partition_map[i]")]
+    ok6, why6 = None, "assignment to haplotype_to_partition_map[i] not found"
+    if len(asg_nodes) == 1:
+        full = flat(clangq.expr_text(asg_nodes[0], env6))
+        mm = re.match(r"operator=this->haplotype_to_partition_map\[i\],\{+(.*?)\}+$", full)
+        why6 = "assignment is %s" % full[:200]
+        if mm:
+            # split the two initialisers at the top-level comma
+            body6, depth, parts, cur = mm.group(1), 0, [], ""
+            for ch in body6:
+                if ch in "[{":
+                    depth += 1
+                elif ch in "]}":
+                    depth -= 1
+                if ch == "," and depth == 0:
+                    parts.append(cur)
+                    cur = ""
+                else:
+                    cur += ch
+            parts.append(cur)
+            if len(parts) == 2:
+                TI = "triple_indices[i]"
+
+                def selector_ok(sel, shift):
+                    bit = "this->transmission_vector>>%s&1" % shift
+                    return sel in ("!" + bit, bit + "?0:1", "1-" + bit, bit + "==0", "!bool" + bit)
+
+                res = []
+                for part, slot, shift in ((parts[0], "0", "2*" + TI), (parts[1], "1", "2*" + TI + "+1")):
+                    base, idx = clangq.split_index_chain(part)
+                    okp_ = base == "this->haplotype_to_partition_map" and len(idx) == 2
+                    if okp_:
+                        pb, pidx = clangq.split_index_chain(idx[0])
+                        okp_ = pb.endswith("get_triples") and pidx == [TI, slot] and selector_ok(idx[1], shift)
+                    res.append(okp_)
+                ok6 = all(res)
+                if not ok6:
+                    why6 = "child partitions are {%s , %s}" % (parts[0][:120], parts[1][:120])
+    hop("6 child hap 0 <- father (bit 2t), hap 1 <- mother (bit 2t+1)", ok6, "src/pedigreepartitions.cpp:%s" % clangq.line_of(rec[0]), "haplotype_to_partition[child] = {father's (triple slot 0) partition chosen by NOT bit 2t, mother's (slot 1) partition chosen by NOT bit 2t+1}", why6)
     # H7 get_alleles
     objs = clangq.dump(ctx.prog, "src/pedigreecolumncostcomputer.cpp", "PedigreeColumnCostComputer::get_alleles")
     ctx.analysed_files.add("src/pedigreecolumncostcomputer.cpp")
@@ -186,6 +224,11 @@ def r2(ctx):
             return {"difference": a.diff, "union": a.union, "intersection": a.inter}[e.func.attr](b)
         if isinstance(e, ast.Call) and u(e) == "set(range(len(variant_table)))":
             return SetExpr(atoms_, SetExpr.universe(atoms_))
+        if isinstance(e, ast.IfExp) and atoms(e.test, True) in ({("include_homozygous", True)}, {("include_homozygous", False)}):
+            positive = atoms(e.test, True) == {("include_homozygous", True)}
+            return ev(e.body if env.get("<mode>") == positive else e.orelse, env)
+        if isinstance(e, ast.Call) and isinstance(e.func, ast.Name) and e.func.id in ("set", "frozenset") and len(e.args) == 1 and not e.keywords:
+            return ev(e.args[0], env)  # a copy of a set is the same set of indices
         if isinstance(e, ast.BinOp) and isinstance(e.op, (ast.Sub, ast.BitOr, ast.BitAnd)):
             a, b = ev(e.left, env), ev(e.right, env)
             if a is None or b is None:
@@ -197,17 +240,19 @@ def r2(ctx):
     conflicts = SetExpr.atom(atoms_, "mendelian_conflicts")
     hom = SetExpr.atom(atoms_, "homozygous")
     for mode in (True, False):
-        env = {}
+        env = {"<mode>": mode}
         # walk the straight-line assignments in order, taking the branch of `include_homozygous`
         def run_block(stmts):
             for s in stmts:
                 if isinstance(s, ast.If) and atoms(s.test, True) in ({("include_homozygous", True)}, {("include_homozygous", False)}):
                     positive = atoms(s.test, True) == {("include_homozygous", True)}
                     run_block(s.body if mode == positive else s.orelse)
-                elif isinstance(s, ast.Assign) and isinstance(s.targets[0], ast.Name) and s.targets[0].id in ("to_retain", "to_discard"):
+                elif isinstance(s, ast.Assign) and len(s.targets) == 1 and isinstance(s.targets[0], ast.Name) and s.targets[0].id not in names:
                     v = ev(s.value, env)
                     if v is not None:
                         env[s.targets[0].id] = v
+                    else:
+                        env.pop(s.targets[0].id, None)
 
         run_block(fi.node.body)
         ok = "to_discard" in env and "to_retain" in env
@@ -222,7 +267,7 @@ def r2(ctx):
                 ok3 = r_.subset_of(SetExpr.atom(atoms_, "heterozygous"))
                 ctx.ob(fi.qual, "only-het-somewhere-retained:%s" % tag, ok3, fi.loc(), "without include_homozygous only variants heterozygous in some member are retained" if ok3 else "variants not heterozygous anywhere can be retained")
         else:
-            ctx.ob(fi.qual, "set-algebra:%s" % tag, False, fi.loc(), "could not evaluate to_retain / to_discard as set expressions")
+            ctx.ob(fi.qual, "set-algebra:%s" % tag, None, fi.loc(), "could not evaluate to_retain / to_discard as set expressions over {heterozygous, homozygous, missing_genotypes, mendelian_conflicts}")
     hp = util.single_def(fi.node, "homozygous_positions")
     ok = hp is not None and isinstance(hp, ast.ListComp) and u(hp.generators[0].iter) in ("to_retain.intersection(homozygous)", "homozygous.intersection(to_retain)", "to_retain & homozygous") and u(hp.elt) == "variant_table.variants[%s].position" % u(hp.generators[0].target)
     ctx.ob(fi.qual, "homozygous-positions-are-retained", ok, fi.loc(), "homozygous_positions ⊆ retained variants" if ok else "homozygous_positions is %s" % (u(hp) if hp is not None else "?"))
@@ -258,18 +303,20 @@ def r2(ctx):
     pc = ctx.func("whatshap.pedigree.mendelian_conflict")
     ok = util.params_of(pc.node) == ["genotypem", "genotypef", "genotypec"]
     ctx.ob(pc.qual, "mendelian_conflict-parameter-order", ok, pc.loc(), "mendelian_conflict(mother, father, child)" if ok else "mendelian_conflict parameters are %s" % util.params_of(pc.node))
-    # the predicate tests both ways of drawing one child allele from each parent, as mirror images
+    # the predicate: no conflict iff (c0 from mother and c1 from father) or (c1 from mother and c0 from father).
+    # Decision table over the four membership tests, from the path summaries (shape-independent)
     pcfg = ctx.cfg(pc)
-    conj = []
-    for r_ in [n for n in walk_function(pc.node) if isinstance(n, ast.Return) and isinstance(n.value, ast.Constant) and n.value.value is False]:
-        ga_ = guard_atoms(pcfg, pcfg.node_of(r_))
-        conj.append(sorted(t for t, p_ in ga_ if p_ and " in alleles_" in t))
-    defs = {k: util.single_def(pc.node, k) for k in ("alleles_m", "alleles_f", "alleles_c")}
-    okd = all(v is not None for v in defs.values()) and u(defs["alleles_m"]) == "genotypem.as_vector()" and u(defs["alleles_f"]) == "genotypef.as_vector()" and u(defs["alleles_c"]) == "genotypec.as_vector()"
-    want = sorted([sorted(["alleles_c[0] in alleles_m", "alleles_c[1] in alleles_f"]), sorted(["alleles_c[1] in alleles_m", "alleles_c[0] in alleles_f"])])
-    ok = okd and sorted(conj) == want
-    tail = [n for n in walk_function(pc.node) if isinstance(n, ast.Return) and isinstance(n.value, ast.Constant) and n.value.value is True]
-    ctx.ob(pc.qual, "both-origin-assignments-tested", ok and len(tail) == 1, pc.loc(), "no conflict iff (c0 from mother and c1 from father) or (c1 from mother and c0 from father); otherwise conflict" if ok and len(tail) == 1 else "mendelian_conflict does not test the two mirror-image origin assignments: %s" % conj)
+    M, F, C = "genotypem.as_vector()", "genotypef.as_vector()", "genotypec.as_vector()"
+    A4 = ["%s[0] in %s" % (C, M), "%s[1] in %s" % (C, F), "%s[1] in %s" % (C, M), "%s[0] in %s" % (C, F)]
+    try:
+        table = common.path_decision_table(pcfg, A4)
+        wrong = [v for v, outs in sorted(table.items()) if outs != {not ((v[0] and v[1]) or (v[2] and v[3]))}]
+        complete = len(table) == 16
+        okp = not wrong and complete
+        why = "for c0 in mother=%s, c1 in father=%s, c1 in mother=%s, c0 in father=%s mendelian_conflict returns %s" % (wrong[0] + (sorted(table[wrong[0]]),)) if wrong else ("the decision table is incomplete" if not complete else "")
+        ctx.ob(pc.qual, "both-origin-assignments-tested", okp, pc.loc(), "over all 16 valuations of the four membership tests: no conflict iff (c0 from mother and c1 from father) or (c1 from mother and c0 from father)" if okp else "mendelian_conflict does not decide by the two mirror-image origin assignments: " + why)
+    except ValueError as e_:
+        ctx.ob(pc.qual, "both-origin-assignments-tested", None, pc.loc(), "mendelian_conflict is not a decision over the four membership tests of the child's two alleles in the parents' genotypes (%s)" % e_)
     fp = [c for c in ctx.prog.calls_in(fi.node) if u(c.func) == "find_mendelian_conflicts"]
     ok = len(fp) == 1 and [u(a) for a in fp[0].args] == ["trios", "variant_table"]
     ctx.ob(fi.qual, "conflicts-of-this-familys-trios", ok, fi.loc(), "conflicts are computed for this family's trios on the full table" if ok else "find_mendelian_conflicts arguments changed")
